@@ -182,6 +182,8 @@ def gen_case(rng, tier, index):
     vclass = rng.choice(["int", "quarter", "cent", "dirty"])
     wl = gen.gen_worklist_cfg(rng)
     wl["max_volume"] = rng.choice([950, 950, 200, 1000, 5000])
+    if rng.random() < 0.04:
+        wl["max_volume"] = rng.choice([1e7, 10**7])  # a step limit above what one record can carry (7158278 uL)
     wt = gen.gen_worktable(rng, vclass=vclass if vclass != "dirty" else "cent", limits=rng.choice(["tight", "tight", "loose"]),
                            need_trough=rng.random() < 0.6, small=True)
     # some wells start below min_volume (legal) or exactly at a limit
